@@ -1,17 +1,22 @@
 /* sysshim.c -- link-time interposition for the storage family (DESIGN 3(c)).
-   Linked with  -Wl,--wrap=open,--wrap=flock,--wrap=pwrite,--wrap=close   (the system calls linux/platform.c issues
-   for file_create / file_write / file_close / file_is_writable; access() and unlink() are left alone) and
+   Linked with  -Wl,--wrap=open,--wrap=flock,--wrap=ftruncate,--wrap=pwrite,--wrap=close   (the system calls
+   linux/platform.c issues for file_create / file_write / file_close / file_is_writable; access() and unlink() are
+   left alone) and
    -Wl,--wrap=file_create,--wrap=file_write,--wrap=file_close  (pure logging of the platform API boundary, so the
    property oracle sees "a file_write call returned 0" directly instead of inferring it from the script).
 
    Every wrapped system call is performed for real (real descriptors, real files) unless the script says it fails:
      create script  (one entry per open() call):   o = succeed, f = open fails (EACCES), l = the flock that follows fails
+                    (EWOULDBLOCK); the ftruncate that follows the flock fails (open and flock succeed) with errno
+                    t = EIO, s = ENOSPC, a = EAGAIN, r = EINTR, b = EBADF, v = EINVAL
+                    (a descriptor that is closed without having been locked / truncated -- the writability probe of
+                    file_is_writable -- forgets its pending l / t..v: there the entry is a plain success)
      write  script  (one entry per pwrite() call): F = write everything, <n> = write min(n,len) bytes,
-                    E | EIO | ENOSPC | EAGAIN | EINTR | EBADF = return -1 with that errno (E = EIO)
+                    E | EIO | ENOSPC | EAGAIN | EINTR | EBADF | EINVAL = return -1 with that errno (E = EIO)
    each with a tail value used once the listed entries are exhausted (persistent faults: every call from index k on).
    Every call is logged on descriptor 1 at once (no buffering: the log must survive a crash):
      S open <path> <fd|-1>      S flock <fd> <0|-1> k=<b>     S pwrite <fd> <off> <len> <res> [e=<errno name>] k=<b>
-     S close <fd> <0|-1> k=<b>
+     S ftruncate <fd> <0|-1> [e=<errno name>] k=<b>           S close <fd> <0|-1> k=<b>
      A file_create <ret>        A file_write <ret>      A file_close
    k=<b>: whether the kernel had the descriptor number open when the call was made (fcntl F_GETFD) -- the ground truth
    the descriptor oracle uses, independent of which calls happen to be interposed.
@@ -39,6 +44,7 @@
 struct file;
 int __real_open(const char* path, int flags, ...);
 int __real_flock(int fd, int op);
+int __real_ftruncate(int fd, off_t length);
 ssize_t __real_pwrite(int fd, const void* buf, size_t n, off_t off);
 int __real_close(int fd);
 int __real_file_create(struct file* file, const char* filename, size_t n);
@@ -54,8 +60,11 @@ static const struct
 {
     const char* name;
     int code;
-} w_errno[] = { { "EIO", EIO }, { "ENOSPC", ENOSPC }, { "EAGAIN", EAGAIN }, { "EINTR", EINTR }, { "EBADF", EBADF } };
+} w_errno[] = { { "EIO", EIO },     { "ENOSPC", ENOSPC }, { "EAGAIN", EAGAIN },
+                { "EINTR", EINTR }, { "EBADF", EBADF },   { "EINVAL", EINVAL } };
 #define N_ERRNO ((int)(sizeof w_errno / sizeof w_errno[0]))
+/* create-script letters of a failing ftruncate, in the order of w_errno */
+static const char t_letters[] = "tsarbv";
 #define SPIN_LIMIT 1000
 #define SPIN_QUIET 4
 static int spin_fd = -2, spin_n = 0;
@@ -66,6 +75,7 @@ static int w_n = 0;
 static long w_tail = -1;
 static int n_open = 0, n_pwrite = 0;
 static unsigned char lock_fails[1024];
+static unsigned char trunc_fails[1024]; /* 0 = no fault pending, 1 + i = the next ftruncate fails with w_errno[i] */
 static int shim_on = 0;
 static int n_lines = 0;
 #define MAXLOG 4000 /* ONE device call that logs more than this is recursing or looping (a call of the generated
@@ -108,6 +118,7 @@ shim_reset(void)
     spin_fd = -2;
     spin_n = 0;
     memset(lock_fails, 0, sizeof lock_fails);
+    memset(trunc_fails, 0, sizeof trunc_fails);
 }
 
 void
@@ -122,7 +133,7 @@ shim_set_create_script(const char* tail, const char* entries)
     c_tail = tail[0];
     c_n = 0;
     for (const char* p = entries; *p && c_n < MAXSCRIPT; ++p)
-        if (*p == 'o' || *p == 'f' || *p == 'l')
+        if (*p == 'o' || *p == 'f' || *p == 'l' || strchr(t_letters, *p))
             c_script[c_n++] = *p;
     return c_n;
 }
@@ -172,8 +183,11 @@ __wrap_open(const char* path, int flags, ...)
         errno = EACCES;
     } else {
         fd = __real_open(path, flags, mode);
-        if (fd >= 0 && fd < (int)sizeof lock_fails)
+        if (fd >= 0 && fd < (int)sizeof lock_fails) {
+            const char* t = r ? strchr(t_letters, r) : 0;
             lock_fails[fd] = (r == 'l');
+            trunc_fails[fd] = t ? (unsigned char)(1 + (t - t_letters)) : 0;
+        }
     }
     int e = errno;
     shim_log("S open %s %d\n", path[0] ? path : "\"\"", fd);
@@ -198,6 +212,37 @@ __wrap_flock(int fd, int op)
     }
     int e = errno;
     shim_log("S flock %d %d k=%d\n", fd, res, was_open);
+    errno = e;
+    return res;
+}
+
+int
+__wrap_ftruncate(int fd, off_t length)
+{
+    if (!shim_on)
+        return __real_ftruncate(fd, length);
+    int res;
+    int was_open = fcntl(fd, F_GETFD) >= 0;
+    int injected = -1;
+    spin_fd = -2;
+    if (fd >= 0 && fd < (int)sizeof trunc_fails && trunc_fails[fd]) {
+        injected = (trunc_fails[fd] - 1) % N_ERRNO;
+        trunc_fails[fd] = 0;
+        res = -1;
+        errno = w_errno[injected].code;
+    } else {
+        res = __real_ftruncate(fd, length);
+    }
+    int e = errno;
+    if (res < 0) {
+        const char* ename = "?";
+        for (int i = 0; i < N_ERRNO; ++i)
+            if (w_errno[i].code == e)
+                ename = w_errno[i].name;
+        shim_log("S ftruncate %d %d e=%s k=%d\n", fd, res, ename, was_open);
+    } else {
+        shim_log("S ftruncate %d %d k=%d\n", fd, res, was_open);
+    }
     errno = e;
     return res;
 }
@@ -281,8 +326,10 @@ __wrap_close(int fd)
     spin_fd = -2;
     int res = __real_close(fd);
     int e = errno;
-    if (fd >= 0 && fd < (int)sizeof lock_fails)
+    if (fd >= 0 && fd < (int)sizeof lock_fails) {
         lock_fails[fd] = 0;
+        trunc_fails[fd] = 0;
+    }
     shim_log("S close %d %d k=%d\n", fd, res, was_open);
     errno = e;
     return res;
